@@ -87,10 +87,9 @@ class Search(abc.ABC):
             )
 
         # The results of this search are written to a new file: an evaluator which already dumped
-        # results for an other search (possibly in an other directory) has to start again with
-        # the header.
-        self._evaluator._columns_dumped = None
-        self._evaluator._start_dumping = False
+        # results at this path for an other search has to start again with the header (what it
+        # dumped to the files of other searches is not concerned).
+        self._evaluator._forget_dump_state(self._path_results)
 
         # Default setting is asynchronous
         self.gather_type = "BATCH"
